@@ -1,7 +1,7 @@
 (* Properties/C12.v — Recursive input types and fragments get finite-size Rust types.
    Box is placed on a member exactly when the recursion test (the visited-set DFS of Dfs.v, as the
    code runs it) reports its target; the theorems are about that test on arbitrary graphs. *)
-From GC Require Import Base Rust TypeExpr Heck Strs Naming Enums Schema Query Attrs Dfs Codegen RecProofs.
+From GC Require Import Base Rust TypeExpr Heck Strs Naming Enums Schema Query Attrs Dfs Codegen Serde RecProofs BoxProofs.
 
 (* inputs: every member that is not inside a list and whose target lies on a cycle of such
    members is boxed (the test reports the target) — for EVERY schema, any number of types *)
@@ -32,6 +32,35 @@ Theorem C12_fragments_finite_size : forall frs n, frags_closed frs ->
   ~ path (unflagged_succs (frag_succs frs) (fragment_is_recursive frs)) n n.
 Proof. exact fragments_finite_size. Qed.
 
+(* ---------- the indirection is invisible in JSON *)
+(* the serde specification reads and writes Box<T> exactly as T *)
+Theorem C12_box_transparent_for_serde : forall henv f env u,
+  (forall j, deser henv (S f) env (RBox u) j = deser henv f env u j) /\
+  (forall v, ser (S f) env (RBox u) v = ser f env u v).
+Proof. intros henv f env u. split; intros x; reflexivity. Qed.
+
+(* recursion changes the type of an input member by a Box wrapper and by nothing else: the type is
+   the decorated type of the schema's type expression (leaf renamed), bare or boxed *)
+Theorem C12_recursion_only_adds_a_box : forall s o ty (extra : bool),
+  wf_gtype (if extra then GNonNull ty else ty) = true ->
+  let t0 := spec_rust (RespProofs.rename (if extra then GNonNull ty else ty) (norm_field_type o (gname ty))) in
+  input_field_type s o ty extra = t0 \/ input_field_type s o ty extra = RBox t0.
+Proof. exact input_member_type. Qed.
+
+(* every member of an input struct, in any schema: wire key = schema name, no flatten / default /
+   helper, and skipped-when-None exactly when the option is on and the type, Box stripped, is an Option *)
+Theorem C12_member_attributes_ignore_boxing : forall s o inp, ai_one_of inp = false ->
+  forallb (fun ty => wf_gtype ty) (map snd (ai_fields inp)) = true ->
+  match input_item s o inp with
+  | IStruct _ _ _ fs =>
+      Forall2 (fun fld f =>
+                 field_wire f = fst fld /\ f_flatten f = false /\ f_default f = false /\ f_deser_with f = None /\
+                 f_skip_none f = (o_skip_none o && is_option_type (f_ty f)))
+              (ai_fields inp) fs
+  | _ => False
+  end.
+Proof. exact input_struct_members. Qed.
+
 (* the DFS is sound as well: what it reports really is a cycle (no spurious claims about graphs) *)
 Theorem C12_test_sound : forall succs fuel n v, dfs succs fuel n [] n = Some (true, v) -> path succs n n.
 Proof. intros succs fuel n v H. exact (dfs_sound succs fuel n [] n v H). Qed.
@@ -50,3 +79,6 @@ Print Assumptions C12_box_placement.
 Print Assumptions C12_fragment_cycles_are_boxed.
 Print Assumptions C12_fragments_finite_size.
 Print Assumptions C12_test_sound.
+Print Assumptions C12_box_transparent_for_serde.
+Print Assumptions C12_recursion_only_adds_a_box.
+Print Assumptions C12_member_attributes_ignore_boxing.
